@@ -1,7 +1,7 @@
 ----------------------------- MODULE MC_DesignPower -----------------------------
 (* Bounded instance for C09.  Every initial state is one (configuration, OMS profile) pair; a behaviour designs   *)
 (* the OMS amplifier by amplifier.  Configurations: power / gain mode x delta_power_range [0,0,0], [-2,3,0.5],    *)
-(* [-6,0,1] x slope 0.3 / 0.5, reference span 20 dB, total design power 10 dBm (0 dBm x 10 channels).              *)
+(* [-6,0,1], [-1.3,2.2,0.5] (round first, THEN clamp: the bound itself is the offset) x slope 0.3 / 0.5, reference span 20 dB, total design power 10 dBm (0 dBm x 10 channels).              *)
 (* Profiles: ROADM (t0) -> booster -> span -> (inline amplifier -> span)* -> preamp -> ROADM with 1..MaxSpans      *)
 (* spans, raw span losses from LossSet raised to a 10 dB padding, operator settings per amplifier from UserKinds.  *)
 (*                                                                                                                *)
@@ -32,7 +32,8 @@ MCLossesTie      == {cdB(2250)}               \* 0.3 x 2.5 dB = 0.75 dB: a tie f
 MCConfigs == {[mode |-> m, slope |-> s, ref |-> cdB(2000), lo |-> r[1], hi |-> r[2], step |-> r[3],
                prefTot |-> cdB(1000)] :
                  m \in {POWER, GAIN}, s \in {300, 500},
-                 r \in {<<0, 0, 0>>, <<0 - cdB(200), cdB(300), cdB(50)>>, <<0 - cdB(600), 0, cdB(100)>>}}
+                 r \in {<<0, 0, 0>>, <<0 - cdB(200), cdB(300), cdB(50)>>, <<0 - cdB(600), 0, cdB(100)>>,
+                        <<0 - cdB(130), cdB(220), cdB(50)>>}}       \* bounds that are NOT multiples of the step
 
 \* operator settings of one amplifier: id, gain, offset, output VOA, input VOA, variety chosen by the operator
 U(id, g, dp, voa, inVoa, var) == [id |-> id, g |-> g, dp |-> dp, voa |-> voa, inVoa |-> inVoa, var |-> var]
@@ -81,11 +82,12 @@ NoTieOnGrid == \A k \in 1..Len(oms.amps) :
                   (oms.rich = 0 /\ RuleApplies(cfg, oms.amps[k])) =>
                       Cardinality(RuleSet(cfg, oms.amps[k].nxt, oms.amps[k].Ln)) = 1
 
-\* emission for the spec -> code replay (B2): one JSON line per complete design of a replayable profile; a
+\* emission for the spec -> code replay (B2): one JSON line per complete design of a replayable profile (rich 0, and
+\* rich 1 = automatic output VOA, whose admissible designs differ only by the VOA added to gain, dp and voa alike); a
 \* deterministic spread over every dimension of the grid selects the designs to replay when a stride is set
 Spread == cfg.mode + cfg.slope \div 100 + cfg.lo \div 1000000 + oms.t0 \div 500000
           + SumSeq([k \in 1..Len(oms.amps) |-> oms.amps[k].L \div 10000 + 7 * k * oms.amps[k].kind])
 Selected == LET st == IF Len(oms.amps) = 2 THEN EmitStride1 ELSE EmitStride2 IN Spread % st = 0
-Emit == i < Len(oms.amps) \/ oms.rich # 0 \/ ~Selected
+Emit == i < Len(oms.amps) \/ oms.rich \notin {0, 1} \/ ~Selected
           \/ PrintT("@@" \o ToJson([cfg |-> cfg, oms |-> oms, out |-> out]))
 ==============================================================================
